@@ -9,19 +9,23 @@ ID = "C12"
 TITLE = "Synchronous FIFOs refine a bounded queue for every strobe sequence"
 RULE = ("case = (class in {SyncFIFO, SyncFIFOBuffered}, width 0..8, depth in {0,1,2,3,4,5,7,8,9,16,17}, clock edge, "
         "scheduler order, explicit step list of input writes and clock level changes drawn from phase profiles "
-        "(balanced, writer-heavy/overrun, reader-heavy/underrun, bursts, boundary single-stepping, simultaneous r+w)). "
+        "(balanced, writer-heavy/overrun, reader-heavy/underrun, bursts, boundary single-stepping, simultaneous r+w), with "
+        "domain-reset pulses at arbitrary instants in a seeded subset of the runs). "
         "A run is non-trivial if at least one entry was written and read and at least one fault kind fired; "
         "distinct = distinct SHA-256 of the per-step observation trace.")
 ASSUMPTIONS = [
     "The Python simulator is the execution model (zero-delay, two-phase).",
     "Inputs change only between clock edges (never in the same step as an edge).",
-    "No domain reset is applied: the property does not define queue contents across a reset.",
+    "Crash/restart of the queue: a synchronous domain reset (asserted at arbitrary instants, held over 1..3 active edges) "
+    "empties the queue at every active edge at which it is asserted (lib.fifo: all state is resettable; C03: a reset loads "
+    "initial values at the active edge); nothing is accepted or delivered at such an edge.",
     "deque monitor (collections.deque) is the trusted reference.",
 ]
 COMPONENTS = {"real": ["amaranth.lib.fifo.SyncFIFO", "amaranth.lib.fifo.SyncFIFOBuffered", "amaranth.lib.memory.Memory",
                        "amaranth.hdl elaboration", "amaranth.sim (PySimEngine, compiled RTL processes)"],
               "stub": ["PermSet scheduler seam", "clock driver (bus wrapper)", "deque monitor"]}
-EXPECTED_PROBES = ("overrun", "underrun", "glitch-in", "inactive", "full", "rw_at_full", "rw_at_empty", "wrap")
+EXPECTED_PROBES = ("overrun", "underrun", "glitch-in", "inactive", "full", "rw_at_full", "rw_at_empty", "wrap", "reset",
+                   "reset_while_holding", "reset_pulse_without_edge")
 
 DEPTHS = [0, 1, 2, 3, 4, 5, 7, 8, 9, 16, 17]
 WIDTHS = [0, 1, 2, 3, 4, 8]
@@ -59,6 +63,8 @@ def gen_case(seed, tier):
     counter = wl.randrange(1 << 8)
     mask = (1 << config["width"]) - 1
     remaining = ncycles
+    p_rst = fl.choice([0, 0, 0.02, 0.06])
+    rst_left = 0
     while remaining > 0:
         prof = wl.choice(list(PROFILES))
         pw, pr = PROFILES[prof]
@@ -83,6 +89,16 @@ def gen_case(seed, tier):
                 steps.append({"k": "clk", "l": 1 - active})
             if extra_inactive and fl.random() < 0.1:
                 steps.append({"k": "clk", "l": 1 - active})   # repeated level: no edge at all
+            if p_rst and fl.random() < p_rst:
+                if rst_left == 0:
+                    steps.insert(len(steps) - fl.choice([0, 0, 1, 2]), {"k": "rst", "l": 1})
+                    rst_left = fl.choice([0, 1, 1, 2, 3])          # 0: released again before any active edge
+                    if rst_left == 0:
+                        steps.append({"k": "rst", "l": 0})
+            elif rst_left:
+                rst_left -= 1
+                if rst_left == 0:
+                    steps.insert(len(steps) - fl.choice([0, 0, 1]), {"k": "rst", "l": 0})
     return {"config": config, "sched": {"mode": sc.choice(["seeded", "seeded", "reverse", "insertion"]),
                                         "seed": sc.randrange(1 << 32)}, "steps": steps, "reuse": fl.random() < 0.15}
 
@@ -101,8 +117,8 @@ def run_case(case):
     dut = build(config)
     res = Result()
     dig = Digest()
-    stats = {"steps": 0, "edges": 0, "faults": {"overrun": 0, "underrun": 0, "glitch-in": 0, "inactive": 0},
-             "probes": {"full": 0, "rw_at_full": 0, "rw_at_empty": 0, "rw_at_1": 0, "wrap": 0, "reads": 0, "writes": 0}}
+    stats = {"steps": 0, "edges": 0, "faults": {"overrun": 0, "underrun": 0, "glitch-in": 0, "inactive": 0, "reset": 0},
+             "probes": {"reset_while_holding": 0, "reset_pulse_without_edge": 0, "full": 0, "rw_at_full": 0, "rw_at_empty": 0, "rw_at_1": 0, "wrap": 0, "reads": 0, "writes": 0}}
     run = ManualRun(dut, [DomainSpec("sync", edge=config["edge"])],
                     sched_mode=case["sched"]["mode"], sched_seed=case["sched"]["seed"])
 
@@ -111,6 +127,8 @@ def run_case(case):
         inp = {"w_en": 0, "w_data": 0, "r_en": 0}
         sigs = {"w_en": dut.w_en, "w_data": dut.w_data, "r_en": dut.r_en}
         clk = 0
+        rst = 0
+        rst_seen_edge = False
         nedge = 0              # number of active edges so far
         oldest_since = None    # active-edge count after which the current head became the oldest
         accepted = 0
@@ -153,6 +171,15 @@ def run_case(case):
                 sets_since_edge += 1
                 if sets_since_edge == 2:
                     stats["faults"]["glitch-in"] += 1
+            elif st["k"] == "rst":
+                pre = obs
+                is_active = False
+                if st["l"] != rst:
+                    if rst and not rst_seen_edge:
+                        stats["probes"]["reset_pulse_without_edge"] += 1
+                    rst = st["l"]
+                    rst_seen_edge = False
+                    drv.drive({"sync.rst": rst})
             else:
                 lvl = st["l"]
                 is_active = (lvl != clk and lvl == active)
@@ -161,7 +188,17 @@ def run_case(case):
                     stats["edges"] += 1
                 clk = lvl
                 drv.drive({"sync.clk": lvl})
-                if is_active:
+                if is_active and rst:
+                    # crash/restart: everything held is gone, nothing is accepted or delivered at this edge
+                    sets_since_edge = 0
+                    nedge += 1
+                    rst_seen_edge = True
+                    stats["faults"]["reset"] += 1
+                    if dq:
+                        stats["probes"]["reset_while_holding"] += 1
+                    dq.clear()
+                    oldest_since = None
+                elif is_active:
                     sets_since_edge = 0
                     nedge += 1
                     w_rdy, r_rdy = pre[0], pre[1]
@@ -201,7 +238,7 @@ def run_case(case):
                     stats["faults"]["inactive"] += 1
             obs = observe(i)
             invariants(i, obs)
-            if st["k"] == "clk" and not is_active and obs != pre:
+            if st["k"] in ("clk", "rst") and not is_active and obs != pre:
                 raise Violation("changed_without_active_edge", i, {"before": list(pre), "after": list(obs)})
             dig.add((st["k"], obs))
 
